@@ -58,6 +58,8 @@ def oniom_case(ctx, rng, force=None):
         frozen = None
     low = rng.choice(["HF", "CCSD"])
     high = force[3] if lih else rng.choice(["CCSD", "FCI"])
+    if force:
+        low = "HF"              # forced cases: the two levels differ in kind (equal levels cancel and hide what a slot was built with)
     # a non-default basis for the 4-atom hydrogen chains, and - in 40% of the cases - ONE options dictionary object handed
     # to every slot that takes the same options (the caller's dictionary belongs to the caller)
     basis = rng.choice(["sto-3g", "3-21g"]) if (geom[0][0] == "H" and len(geom) == 4) else "sto-3g"
